@@ -19,12 +19,12 @@ from . import pipeline as _p
 PROPERTY = 'C20'
 ISOLATE = True
 LEVEL = 'exploration'
-TIERS = {'quick': {'runs': 600, 'wall': 85, 'min_budget': 60}, 'thorough': {'runs': 150000, 'wall': 1500, 'min_budget': 200}}
+TIERS = {'quick': {'runs': 1500, 'wall': 85, 'min_budget': 60}, 'thorough': {'runs': 150000, 'wall': 1500, 'min_budget': 200}}
 RULE = ('one run = one generated signature (1-3 modules with imports, 1-3 sorts incl. hooked, 2-5 constructors of arity 0-2, optional cells, a parametric inj, kseq), 1-5 rewrite rules '
         'with 0-2 variables obtained by abstracting sub-terms of the running configuration, a ground start configuration and a trace of 1-8 rule applications from an independent '
         'rewriter, delivered (a) as rewrite_event calls on an ExecutionProofExp built through the builder API, (b) as rewrite_event calls with rules and substitutions converted from '
         'stub Kore terms (from_kore_definition, convert_substitutions) and (c) as an LLVMRewriteTrace (rule event, configuration, rule event, ...) through get_proof_hints + '
-        'from_proof_hints, where 40% of the streams also lose, repeat or swap an item; 45% of runs inject 1-2 event-stream faults (drop / duplicate / swap / corrupt a substitution value / wrong rule). '
+        'from_proof_hints, where half of the streams also lose, repeat or swap an item or lose a chunk (e.g. a configuration and the rule event after it); 45% of runs inject 1-2 event-stream faults (drop / duplicate / swap / corrupt a substitution value / wrong rule). '
         'Against R5, event by event: refusal exactly at the first index where the step does not start at the reached configuration; otherwise claims, advertised conclusions, current '
         'configuration and axioms as R5 says; at the end both serialisations are accepted by the checker and R1 and pass the C03 journal check. '
         'Non-trivial = trace of >= 2 events or a fault that fired; distinct = distinct event-log digests.')
@@ -165,10 +165,10 @@ def generate(rng, tier):
             faults.append([kind, rng.randrange(max(1, len(events))), rng.getrandbits(16)])
     path = rng.choice(['api', 'api', 'kore', 'hints'])
     item_faults = []
-    if path == 'hints' and rng.random() < 0.4:
+    if path == 'hints' and rng.random() < 0.5:
         # the hint stream itself (rule event, configuration, rule event, configuration, ...) loses, repeats or reorders an item
         for _ in range(rng.choice([1, 1, 2])):
-            item_faults.append([rng.choice(['drop_item', 'dup_item', 'swap_items']), rng.randrange(64)])
+            item_faults.append([rng.choice(['drop_item', 'dup_item', 'swap_items', 'drop_chunk', 'drop_config_rule', 'drop_config_rule']), rng.randrange(64), rng.choice([2, 2, 3])])
     return {'mods': mods, 'sorts': sorts, 'hooked': hooked, 'symbols': symbols, 'rules': rules, 'start': start, 'events': events, 'faults': faults,
             'path': path, 'item_faults': item_faults, 'order': rng.choice([[False, True], [True, False], [False]])}
 
@@ -424,11 +424,16 @@ def deliver_hints(sc, events, sem, K, ordinal_of, symtab, out):
     items = []
     for k in range(len(events)):
         items += [('rule', k), ('config', k)]
-    for kind, pos in sc.get('item_faults', []):
+    for kind, pos, *rest in sc.get('item_faults', []):
         if not items: break
         i = pos % len(items)
         fired = True
         if kind == 'drop_item': del items[i]
+        elif kind == 'drop_config_rule':                # a configuration and the rule event after it are lost: the stream then pairs a rule with a later configuration
+            i = (2 * (pos % max(1, len(items) // 2)) + 1) % len(items)
+            del items[i:i + 2]
+        elif kind == 'drop_chunk':                      # a lost buffer: two or three consecutive items (e.g. a configuration and the next rule event)
+            del items[i:i + (rest[0] if rest else 2)]
         elif kind == 'dup_item': items.insert(i, items[i])
         elif i + 1 < len(items): items[i], items[i + 1] = items[i + 1], items[i]
         else: fired = False
